@@ -472,7 +472,7 @@ func faultReplayBody(ops []op, failAt int) []string {
 }
 
 // runFaultStream is called from run().
-func runFaultStream(c *vh.Ctx, drv *vh.Driver) {
+func runFaultStream(c *vh.Ctx, drv *vh.Driver, transient *[]string) error {
 	res := c.Res
 	nCases := c.N(40, 400)
 	reported := 0
@@ -487,6 +487,27 @@ func runFaultStream(c *vh.Ctx, drv *vh.Driver) {
 		}
 		failAt := pickFault(r, puts)
 		v := runFaultCase(drv, ops, failAt)
+		if v.harness != "" {
+			// harness trouble (child start, journal, driver I/O): once more, then give up as a broken harness
+			first := v.harness
+			if v = runFaultCase(drv, ops, failAt); v.harness != "" {
+				return fmt.Errorf("write-fault case %d: harness error twice: %s / %s", ci, first, v.harness)
+			}
+			res.Dist("harness-error-retried")
+		}
+		if v.fails() {
+			// a failure counts only if it happens again
+			if v2 := runFaultCase(drv, ops, failAt); v2.fails() && v2.harness == "" {
+				v = v2
+			} else {
+				_, what := v.describe()
+				res.Dist("nonreproducible-disagreement")
+				if len(*transient) < 5 {
+					*transient = append(*transient, fmt.Sprintf("write-fault-%d: %s", ci, what))
+				}
+				v.mismatch, v.oracle, v.harness = "", "", ""
+			}
+		}
 		res.Count(strings.Join(faultReplayBody(ops, failAt), "\n"), v.nontrivial)
 		res.TracesVsImpl++
 		res.Dist("stream-write-fault")
@@ -505,6 +526,9 @@ func runFaultStream(c *vh.Ctx, drv *vh.Driver) {
 			// not shrunk: the fault position is a global Put number, dropping ops would move it
 			body := faultReplayBody(ops, failAt)
 			kind, what := v.describe()
+			if what == "" {
+				continue
+			}
 			rp := vh.WriteReplay(c.ReplayDir, "C02", fmt.Sprintf("write-fault-%d", ci), c.Seed,
 				[]string{kind + ": " + what, "first line W K: the K-th db.Put of the first life fails; the first life runs in a child process on LevelDB"}, body)
 			res.Fail(kind, "", what, rp)
@@ -518,4 +542,5 @@ func runFaultStream(c *vh.Ctx, drv *vh.Driver) {
 	for _, k := range ks {
 		res.DistN(k, kinds[k])
 	}
+	return nil
 }
